@@ -379,6 +379,12 @@ Section EquivModel.
     let cm := vtab n (colmean n M) in
     let g := grandmean n n M in
     mtab n n (fun i j => (M i j + g - vof cm j - vof cm i) * neg_half).
+  Definition isomap_matrix_pre_f23_exec (n : nat) (LG : list (list F)) : list (list F) :=
+    let S := mtab n n (geo_sq (mof LG)) in
+    let M := mof S in
+    let cm := vtab n (colmean n M) in
+    let g := grandmean n n M in
+    mtab n n (fun i j => (M i j + g - vof cm j - vof cm i) * neg_half).
   (* squared distances between the rows of an embedding *)
   Definition emb_sq_dist_exec (n d : nat) (LY : list (list F)) : list (list F) :=
     mtab n n (fun i j => sumn d (fun c => (mof LY i c - mof LY j c) * (mof LY i c - mof LY j c))).
